@@ -122,8 +122,32 @@ func (tr *fnTrans) instr(ins ssa.Instruction) {
 		tr.setVal(x, t)
 	case *ssa.Convert:
 		tr.setVal(x, tr.convert(x, tr.val(x.X)))
+	case *ssa.MultiConvert:
+		a := tr.val(x.X)
+		ts := c.sortOf(x.Type())
+		if a.Sort == "Int" && ts == "Int" {
+			tr.useTypeParam(x.Type())
+			tr.useTypeParam(x.X.Type())
+			tr.setVal(x, Term{wrapInt(a.S, x.Type()), "Int", x.Type()})
+		} else {
+			tr.unsupported("multiconvert %s <- %s", x.Type(), x.X.Type())
+			tr.freshVal(x, "multiconvert")
+		}
 	case *ssa.ChangeInterface:
-		tr.setVal(x, tr.val(x.X))
+		v := tr.val(x.X)
+		ts := c.sortOf(x.Type())
+		switch {
+		case v.Sort == ts:
+			tr.setVal(x, v)
+		case v.Sort == "RType" && ts == "Iface":
+			tr.setVal(x, Term{app(c.declFun("rtbox", []Sort{"RType"}, "Iface"), v.S), "Iface", x.Type()})
+			tr.assume(app("=", app("=", v.S, "rt_nil"), app("=", tr.vals[x].S, "nil_iface")))
+		case v.Sort == "Iface" && ts == "RType":
+			tr.setVal(x, Term{app(c.declFun("rtunbox", []Sort{"Iface"}, "RType"), v.S), "RType", x.Type()})
+		default:
+			tr.unsupported("change interface %s <- %s", x.Type(), x.X.Type())
+			tr.freshVal(x, "changeiface")
+		}
 	case *ssa.MakeInterface:
 		xv := tr.val(x.X)
 		if xv.Sort == "RType" {
